@@ -2,6 +2,8 @@ import Ptn.C02.NodeProps
 import Ptn.C02.TTNLemmas
 import Ptn.C02.ContractSpec
 import Ptn.C02.SplitSpec
+import Ptn.C02.ContractWF
+import Ptn.C02.SplitWF
 /-! Property theorems for C02.  Only property theorems and non-vacuity examples live here (part 1,
 the Node machine, is in `NodeProps.lean`, imported here); helper lemmas are in `Lemmas.lean`,
 `NodeSpec.lean`, `TTNLemmas.lean`, `ContractSpec.lean`, ….
@@ -223,5 +225,78 @@ example :
 example :
     (TTN.buildOutNode [⟨20, 2⟩, ⟨21, 2⟩, ⟨22, 2⟩, ⟨99, 2⟩] ⟨none, [5, 6], [4], true⟩ ⟨none, [], [], false⟩ 9).map (fun n => (n.parent, n.children, transposeT [⟨20, 2⟩, ⟨21, 2⟩, ⟨22, 2⟩, ⟨99, 2⟩] n.perm)) =
       some (none, [9, 5, 6], some [⟨99, 2⟩, ⟨20, 2⟩, ⟨21, 2⟩, ⟨22, 2⟩]) := by decide
+
+/-! ### Graph level: operations keep the network well-formed
+
+`TTN.WF` (see `Graph.lean`, `SGraph.lean`): node keys = tensor keys; exactly one parentless node and
+`root` names it; parent/child links symmetric; no duplicate children; a rank strictly decreasing
+towards the root (every node reaches the root – the graph is a tree); every node satisfies the Node
+invariant `WFN`; every recorded `_shape` is the shape of the stored array. -/
+
+/-- A plain access (`ttn.tensors[id]`, `ttn[id]`: lazy transposition + `_reset_permutation`) keeps the
+    network well-formed. -/
+theorem access_preserves_wf {t t1 : TTN} {id : Id} {T : Tensor} (h : t.WF)
+    (ha : t.access id = some (t1, T)) : t1.WF :=
+  access_wf h ha
+
+/-- **`contract_nodes` keeps the network well-formed** – every well-formed network, both argument orders,
+    every admissible identifier (either operand's identifier or an unused one). -/
+theorem contract_nodes_wf {t t' : TTN} {id1 id2 new : Id} (h : t.WF)
+    (hnew : new = id1 ∨ new = id2 ∨ t.N new = none)
+    (hc : t.contractNodes id1 id2 new = some t') : t'.WF :=
+  contract_nodes_wf_aux h hnew hc
+
+/-- … and what the contraction does to the structure: the two nodes are replaced by `new`, which has the
+    parent's parent and exactly the other children of both; everybody else keeps its array bookkeeping and
+    has its references to the two old identifiers renamed (`contractRen`); the root is transferred when
+    the parent was the root; the tensor dictionary loses the two keys and gains `new`. -/
+theorem contract_nodes_structure {t t' : TTN} {id1 id2 new : Id} (h : t.WF)
+    (hnew : new = id1 ∨ new = id2 ∨ t.N new = none)
+    (hc : t.contractNodes id1 id2 new = some t') :
+    ∃ pid cid P C nn newT, t.N pid = some P ∧ t.N cid = some C ∧ C.parent = some pid ∧
+      ((pid = id1 ∧ cid = id2) ∨ (pid = id2 ∧ cid = id1)) ∧
+      t'.N new = some nn ∧ nn.parent = P.parent ∧
+      (∀ x, x ∈ nn.children ↔ ((x ∈ P.children ∧ x ≠ cid) ∨ x ∈ C.children)) ∧
+      (pid ≠ new → t'.N pid = none) ∧ (cid ≠ new → t'.N cid = none) ∧
+      (∀ k, k ≠ new → k ≠ pid → k ≠ cid →
+        (t.N k = none → t'.N k = none) ∧
+        (∀ n, t.N k = some n → ∃ n', t'.N k = some n' ∧ CRel pid cid new n n')) ∧
+      (∀ k, dget t'.tensors k = if k = new then some newT
+                                else if k = pid ∨ k = cid then none else dget t.tensors k) ∧
+      t'.root = (if P.parent = none then some new else t.root) := by
+  obtain ⟨pid, cid, P, C, nn, newT, hP, hC, hCp, hids, _, n1, _, _, _, n5, a1, a2, a3, a4, a5, a6⟩ :=
+    contract_final h hnew hc
+  exact ⟨pid, cid, P, C, nn, newT, hP, hC, hCp, hids, a1, n1, n5, a2, a3, a4, a5, a6⟩
+
+/-- **`split_nodes` keeps the network well-formed** – every well-formed network, every splitting function
+    (QR, SVD, replacement: only the new bond dimension enters), every admissible pair of leg
+    specifications (`SplitAdm`: the child identifiers partition the children, exactly one side takes the
+    parent resp. the root flag) and identifiers (the old one on either side, or unused ones). -/
+theorem split_nodes_wf {t t' : TTN} {id : Id} {X : NodeS} {outL inL : TTN.LegSpec} {outId inId : Id}
+    {bd : Nat} (h : t.WF) (adm : SplitAdm t id X outL inL outId inId)
+    (hs : t.splitNodes id outL inL outId inId bd = some t') : t'.WF :=
+  split_nodes_wf_aux h adm hs
+
+/-- … and what the split does to the structure.  `a` is the side that takes the place of the old node
+    towards its parent (or as root), `b` the other side: `a` has the old parent and children `b :: aCh`,
+    `b` has parent `a` and children `bCh`; the old identifier disappears unless reused; every former
+    child points to the side that lists it, the former parent points to `a` (`splitRen`); everybody else
+    is untouched; the root is transferred to `a` when the old node was the root. -/
+theorem split_nodes_structure {t t' : TTN} {id : Id} {X : NodeS} {outL inL : TTN.LegSpec} {outId inId : Id}
+    {bd : Nat} (h : t.WF) (adm : SplitAdm t id X outL inL outId inId)
+    (hs : t.splitNodes id outL inL outId inId bd = some t') :
+    ∃ a b aCh bCh na nb,
+      ((a = outId ∧ b = inId ∧ aCh = outL.childLegs ∧ bCh = inL.childLegs) ∨
+       (a = inId ∧ b = outId ∧ aCh = inL.childLegs ∧ bCh = outL.childLegs)) ∧
+      t'.N a = some na ∧ t'.N b = some nb ∧
+      na.parent = X.parent ∧ na.children = b :: aCh ∧ nb.parent = some a ∧ nb.children = bCh ∧
+      (id ≠ a → id ≠ b → t'.N id = none) ∧
+      (∀ k, k ≠ a → k ≠ b → k ≠ id →
+        (t.N k = none → t'.N k = none) ∧
+        (∀ n, t.N k = some n → ∃ n', t'.N k = some n' ∧ SRel id a b aCh k n n')) ∧
+      t'.root = (if X.parent = none then some a else t.root) := by
+  obtain ⟨a, b, aCh, bCh, na, nb, _, _, hcfg, _, hNa, hNb, p1, p2, p3, p4, _, _, _, _, hid, hby, _, hR⟩ :=
+    split_final h adm hs
+  exact ⟨a, b, aCh, bCh, na, nb, hcfg, hNa, hNb, p1, p2, p3, p4, hid, hby, hR⟩
 
 end Ptn.C02
